@@ -238,7 +238,7 @@ func vc04Exchange(t *rapid.T, h dnsserver.Handler, req *dns.Msg) (resp *dns.Msg)
 func TestVerifC04History(t *testing.T) {
 	st := vstat.New("C04", "cache.history",
 		"rapid stateful histories (query | advance clock) against cache.Middleware with a harness-clocked store; non-trivial = response served without an upstream call, distinct by (cache key, age bucket of 500ms)",
-		"hit", "hit-late", "miss-after-expiry", "uncacheable-repeat", "hit-other-case", "override")
+		"hit", "hit-late", "miss-after-expiry", "uncacheable-repeat", "hit-other-case", "override", "near-miss-do", "near-miss-qtype", "near-miss-qclass")
 	st.Finish(t)
 
 	rapid.Check(t, func(t *rapid.T) {
@@ -281,8 +281,27 @@ func TestVerifC04History(t *testing.T) {
 			}
 
 			var q vq
+			nearMiss := ""
 			if op >= 3 && len(asked) > 0 {
 				q = asked[rapid.IntRange(0, len(asked)-1).Draw(t, "repeat")]
+
+				// Near miss: the same question except for exactly one component
+				// that a correct cache key must distinguish.
+				switch rapid.IntRange(0, 7).Draw(t, "nearMiss") {
+				case 1, 2:
+					q.do = !q.do
+					nearMiss = "do"
+				case 3:
+					q.qt = map[uint16]uint16{dns.TypeA: dns.TypeAAAA, dns.TypeAAAA: dns.TypeA}[q.qt]
+					if q.qt == 0 {
+						q.qt = dns.TypeA
+					}
+
+					nearMiss = "qtype"
+				case 4:
+					q.qc = map[uint16]uint16{dns.ClassINET: dns.ClassCHAOS, dns.ClassCHAOS: dns.ClassINET}[q.qc]
+					nearMiss = "qclass"
+				}
 			} else {
 				kind := vdns.Kind(rapid.IntRange(0, int(vdns.KKinds)-1).Draw(t, "kind"))
 				ti := rapid.IntRange(0, len(vdns.TTLs)-1).Draw(t, "ttlIdx")
@@ -337,6 +356,10 @@ func TestVerifC04History(t *testing.T) {
 			e, inModel := model[key]
 			age := fc.now - e.stored
 			classes := []string{"kind-" + vdns.KindNames[kind]}
+			if nearMiss != "" {
+				classes = append(classes, "near-miss-"+nearMiss)
+			}
+
 			nt := ""
 			if fromCache {
 				nt = fmt.Sprintf("%s@%d", key, age/(500*time.Millisecond))
